@@ -33,13 +33,15 @@ class Universe:
         leaf_fields = [("a", "n", None), ("v", "n", None)]
         # two dynamically sized fields: values of one total size can split it differently (cached offsets of a view go stale)
         d = {"_xofields": {"a": num(0, "a"), "v": num(0, "v"), "arr": xo.Float64[:], "brr": xo.Int64[:]}}
+        force = force or {}
         ren0 = {"v": "vee"} if r.random() < 0.5 else {}
+        if "ren" in force:
+            ren0 = dict(force["ren"][0])
         if ren0:
             d["_rename"] = ren0
         Leaf = type(f"HLeaf{uid}", (xo.HybridClass,), d)
         self.spec.append((leaf_fields, ren0))
         self.classes.append(Leaf)
-        force = force or {}
         k1 = force.get("k1") or r.choice(["N", "R"])
         k1b = force["k1b"] if "k1b" in force else r.choice(["N", "R", None])
         f = {"k": num(1, "k"), "leaf": Leaf if k1 == "N" else xo.Ref(Leaf)}
@@ -60,6 +62,8 @@ class Universe:
         ren2 = {"s": "ess"} if r.random() < 0.5 else {}
         if r.random() < 0.5:
             ren2["mid"] = "middle"
+        if "ren" in force:
+            ren2 = dict(force["ren"][2])
         f = {"s": num(2, "s"), "mid": Mid if k2 == "N" else xo.Ref(Mid), "leaf": Leaf if k3 == "N" else xo.Ref(Leaf)}
         d = {"_xofields": f}
         if ren2:
@@ -70,6 +74,8 @@ class Universe:
         # class 3: a class DERIVED from Leaf that declares its fields again with its own defaults (and its own renaming)
         d = {"_xofields": {"a": num(3, "a"), "v": num(3, "v"), "arr": xo.Float64[:], "brr": xo.Int64[:]}}
         ren3 = {"a": "aye"} if r.random() < 0.5 else {}
+        if "ren" in force:
+            ren3 = dict(force["ren"][3])
         if ren3:
             d["_rename"] = ren3
         LeafD = type(f"HLeafD{uid}", (Leaf,), d)
@@ -270,6 +276,8 @@ class Case:
         if k == "n":
             v = self.num_value()
             word, val = f"n{v}", v
+        elif source == "":
+            word, val = "none", None
         elif source is not None:
             word, val = f"i{source}", self.handles[source]
         else:
@@ -327,12 +335,14 @@ class Case:
             self.exp.append("err " + type(ex).__name__)
             self.fail("C18:set-raises:" + type(ex).__name__, f"{hn}.{py} = {hn}.{py}: {str(ex)[:160]}")
 
-    def op_copy(self):
+    def op_copy(self, target=None):
         cands = self.insts()
         if not cands:
             return
         hn, obj = self.r.choice(cands)
         bi = self.r.randrange(3)
+        if target is not None:
+            hn, obj, bi = target[0], self.handles[target[0]], target[1]
         name = self.new_name()
         self.ops.append(f"copy {name} {hn} {bi}")
         try:
@@ -344,12 +354,14 @@ class Case:
             self.exp.append("err " + type(ex).__name__)
             self.fail("C18:copy-raises:" + type(ex).__name__, f"{hn}.copy(_buffer={bi}): {str(ex)[:160]}")
 
-    def op_move(self):
+    def op_move(self, target=None):
         cands = self.insts()
         if not cands:
             return
         hn, obj = self.r.choice(cands)
         bi = self.r.randrange(3)
+        if target is not None:
+            hn, obj, bi = target[0], self.handles[target[0]], target[1]
         self.ops.append(f"move {hn} {bi}")
         before = self.values(obj)
         try:
@@ -581,6 +593,78 @@ def dict_ops(c, r, lines, expect, ctxs):
         lines.append(f"rt {ci} {venc(U, ci, val)}")
         expect.append("same")
         ctxs.append(ctx)
+
+
+def force_of(univ_line):
+    """the Universe choices encoded in a `univ` protocol line"""
+    cl = univ_line.split(" ", 1)[1].split(";")
+    kinds, rens = [], []
+    for c in cl:
+        fs, rn = c.split("|")
+        kinds.append({e.split("=")[0]: e.split("=")[1] for e in fs.split(",") if e})
+        rens.append({e.split(">")[0]: e.split(">")[1] for e in rn.split(",") if e})
+    return {"k1": kinds[1]["leaf"][0], "k1b": kinds[1]["leaf_to_rename"][0] if "leaf_to_rename" in kinds[1] else None,
+            "k2": kinds[2]["mid"][0], "k3": kinds[2]["leaf"][0], "ren": rens}
+
+
+def replay_ops(ops, fails, tags):
+    """re-executes a recorded history (protocol lines) on the real library, with the oracle after every operation; returns the case"""
+    r = random.Random(7)
+    c = Case(r, fails, tags, force=force_of(ops[0]))
+    assert c.U.line() == ops[0], (c.U.line(), ops[0])
+    U = c.U
+    inv = [{v: k for k, v in ren.items()} for _, ren in U.spec]
+    for line in ops[4:]:
+        w = line.split()
+        before = len(c.ops)
+        c.last_target = None
+        try:
+            if w[0] == "new":
+                ci = int(w[2])
+                given = {}
+                nums = {}
+                for kv in w[4:]:
+                    py, v = kv.split("=")
+                    n = inv[ci].get(py, py)
+                    if v.startswith("i"):
+                        given[n] = v[1:]
+                    elif v.startswith("n"):
+                        nums[py] = int(v[1:])
+                seq = iter([nums[U.pyname(ci, n)] for n, k, _ in U.spec[ci][0] if k == "n"])
+                c.num_value = lambda seq=seq: next(seq)
+                c.op_new(ci=ci, bi=int(w[3]), given=given)
+                del c.num_value
+            elif w[0] == "get":
+                ci = U.cls_index(c.handles[w[2]])
+                c.op_get(target=(w[2], inv[ci].get(w[3], w[3])))
+            elif w[0] == "set":
+                ci = U.cls_index(c.handles[w[1]])
+                n = inv[ci].get(w[2], w[2])
+                if w[3].startswith("n") and w[3] != "none":
+                    c.num_value = lambda v=int(w[3][1:]): v
+                    c.op_set(target=(w[1], n))
+                    del c.num_value
+                elif w[3] == "none":
+                    c.op_set(target=(w[1], n), source="")
+                else:
+                    c.op_set(target=(w[1], n), source=w[3][1:])
+            elif w[0] == "copy":
+                c.op_copy(target=(w[2], int(w[3])))
+            elif w[0] == "move":
+                c.op_move(target=(w[1], int(w[2])))
+            elif w[0] == "pyset":
+                setattr(c.handles[w[1]], w[2], int(w[3]))
+                c.ops.append(line)
+                c.exp.append("ok")
+            elif w[0] == "pyget":
+                obj = c.handles[w[1]]
+                c.ops.append(line)
+                c.exp.append(f"num {int(getattr(obj, w[2]))}" if w[2] in obj.__dict__ else "noattr")
+        except KeyError:
+            break
+        if len(c.ops) > before and not c.check_mirror(c.ops[-1]):
+            break
+    return c
 
 
 def corpus_history(r, fails, tags):
